@@ -37,6 +37,7 @@ pub fn get(prop: &str, tier: &str) -> Option<Check> {
                 Batch { name: "server_tcp_model", f: scen::server_tcp::run_model, cfg: cfg(Mode::LockStep, false, 0), runs: n(60_000, 1_500_000), real: REAL_SERVER_TCP, stub: STUB_SERVER_TCP },
                 Batch { name: "server_tcp_model_faults", f: scen::server_tcp::run_model, cfg: cfg(Mode::LockStep, true, 0), runs: n(20_000, 500_000), real: REAL_SERVER_TCP, stub: STUB_SERVER_TCP },
                 Batch { name: "rtu_server_model", f: scen::rtu::run_server_model, cfg: cfg(Mode::LockStep, false, 0), runs: n(40_000, 1_000_000), real: REAL_SERVER_RTU, stub: STUB_SERVER_RTU },
+                Batch { name: "server_tcp_racy", f: scen::server_tcp::run_racy, cfg: cfg(Mode::Racy, true, 0), runs: n(30_000, 1_000_000), real: REAL_SERVER_TCP, stub: STUB_SERVER_TCP },
             ],
             assumptions: vec!["model::server encodes the Modbus application protocol as stated in C01 (DESIGN.md A.1)", "byte-count field of write-multiple requests is not part of the statement"],
         },
@@ -48,6 +49,7 @@ pub fn get(prop: &str, tier: &str) -> Option<Check> {
                 Batch { name: "server_tcp_model_faults", f: scen::server_tcp::run_model, cfg: cfg(Mode::LockStep, true, 0), runs: n(20_000, 500_000), real: REAL_SERVER_TCP, stub: STUB_SERVER_TCP },
                 Batch { name: "rtu_server_model", f: scen::rtu::run_server_model, cfg: cfg(Mode::LockStep, false, 0), runs: n(40_000, 1_000_000), real: REAL_SERVER_RTU, stub: STUB_SERVER_RTU },
                 Batch { name: "tls_authz_model", f: scen::tls::run_authz_model, cfg: cfg(Mode::Racy, false, 0), runs: n(3_000, 100_000), real: REAL_TLS, stub: STUB_TLS },
+                Batch { name: "server_tcp_racy", f: scen::server_tcp::run_racy, cfg: cfg(Mode::Racy, true, 0), runs: n(30_000, 1_000_000), real: REAL_SERVER_TCP, stub: STUB_SERVER_TCP },
             ],
             assumptions: vec!["handlers are the harness's instrumented point memory"],
         },
@@ -140,6 +142,7 @@ pub fn get(prop: &str, tier: &str) -> Option<Check> {
             batches: vec![
                 Batch { name: "server_sessions", f: scen::sessions::run_sessions, cfg: cfg(Mode::LockStep, false, 0), runs: n(100_000, 3_000_000), real: REAL_SERVER_TCP, stub: STUB_SERVER_TCP },
                 Batch { name: "tls_handshake_stall_server", f: scen::tls::run_handshake_stall, cfg: cfg(Mode::Racy, true, 1), runs: n(600, 20_000), real: REAL_TLS, stub: STUB_TLS },
+                Batch { name: "server_tcp_racy", f: scen::server_tcp::run_racy, cfg: cfg(Mode::Racy, true, 0), runs: n(30_000, 1_000_000), real: REAL_SERVER_TCP, stub: STUB_SERVER_TCP },
             ],
             assumptions: vec!["TLS servers share the session tracker; the TLS handshake phase is judged under C07/C09"],
         },
